@@ -301,4 +301,47 @@ theorem C13_update_atomic (c a b : Nat) (evs : List Callbacks.UpdEv)
 theorem C13_update_witness :
     (Callbacks.updRun ⟨2, []⟩ [.plan 0 4, .plan 1 5, .apply 1, .apply 0]).cur = 4 := by decide
 
+/-! ### one description object re-used for several pilots (round 16) -/
+
+theorem filter_map_aux {α β : Type} (f : α → β) (P : β → Bool) (Q : α → Bool) (g : β → Nat) (g' : α → Nat)
+    (hP : ∀ a, P (f a) = Q a) (hg : ∀ a, g (f a) = g' a) (l : List α) :
+    ((l.map f).filter P).map g = (l.filter Q).map g' := by
+  induction l with
+  | nil => rfl
+  | cons a l ih =>
+    simp only [List.map_cons, List.filter_cons, hP a]
+    cases Q a <;> simp [ih, hg a]
+
+theorem shared_filter (subs : List (Nat × Nat)) (p : Nat) :
+    ((submitShared true subs).filter (fun t => t.pilot = some p ∧ ¬ t.state.isFinal)).map (·.uid)
+      = (subs.filter (fun s => s.2 = p)).map (·.1) := by
+  have hs : submitShared true subs
+      = subs.map (fun s => ({ uid := s.1, state := .nf 0, pilot := some s.2, detail := none } : Task)) := by
+    simp [submitShared]
+  rw [hs]
+  apply filter_map_aux
+  · intro a; simp [St.isFinal]
+  · intro a; rfl
+
+/-- **C13 for tasks of one re-used description**: with the Task recording its pilot when it is created
+    (`Gen.taskPilotSnapshot`, read from task.py), whatever the application does to the description object afterwards -
+    in particular re-using it for the next pilot - the end of pilot `p` fails exactly the tasks that were submitted
+    to `p`: its own and only those -/
+theorem C13_shared_description (subs : List (Nat × Nat)) (p : Nat) :
+    ∃ ts', pilotFinalOne N p (submitShared Gen.taskPilotSnapshot subs)
+             = .ok (ts', (subs.filter (fun s => s.2 = p)).map (·.1)) := by
+  have e : Gen.taskPilotSnapshot = true := by decide
+  rw [e]
+  obtain ⟨pubs, h, hp⟩ := pilotFinalOne_eq p (submitShared true subs)
+  refine ⟨(submitShared true subs).map (failOne p), ?_⟩
+  rw [h, hp, shared_filter]
+
+/-- a live view of the description shows every task the pilot of the last submission: the end of pilot 0 fails nothing,
+    the end of pilot 2 fails all three -/
+theorem C13_shared_description_witness :
+    (match pilotFinalOne 15 0 (submitShared false [(0, 0), (1, 1), (2, 2)]) with | .ok r => r.2 | .error _ => [99]) = []
+    ∧ (match pilotFinalOne 15 2 (submitShared false [(0, 0), (1, 1), (2, 2)]) with | .ok r => r.2 | .error _ => [99]) = [0, 1, 2]
+    ∧ (match pilotFinalOne 15 0 (submitShared true [(0, 0), (1, 1), (2, 2)]) with | .ok r => r.2 | .error _ => [99]) = [0] := by
+  decide
+
 end RPVerif.C13
